@@ -9,6 +9,7 @@ import PsModel.Primality
 import PsModel.FloatOracle
 import PsModel.SieveTable
 import PsModel.Erat
+import PsModel.Parallel
 
 open Ps
 
@@ -142,6 +143,50 @@ partial def segLoop (h : IO.FS.Stream) : IO Unit := do
   IO.println s!"{op} => {segLine op}"
   segLoop h
 
+/-- primality test backed by a sieve table when the interval is small enough -/
+def rangeIsPrime (lo hi : Nat) : Nat → Bool :=
+  if lo ≤ hi ∧ hi - lo ≤ 60000000 ∧ hi ≤ 200000000000000 then
+    let t := segmentTable lo hi
+    tableIsPrime lo hi t
+  else isPrimeMR
+
+def tableOk (lo hi : Nat) : Bool := lo ≤ hi ∧ hi - lo ≤ 130000000 ∧ hi ≤ 200000000000000
+
+def showList (l : List Nat) : String := ",".intercalate (l.map toString)
+
+/-- counts with a table-backed primality test; the table is a *parameter* of a non-inlined
+    function so that it is built exactly once (a `let` inside the caller gets moved into the
+    closure by the compiler and would be rebuilt on every primality query) -/
+@[noinline] def countsWithTable (t : ByteArray) (start stop numThreads minDist : Nat) : Counts :=
+  parallelCounts (tableIsPrime start stop t) start stop 63 numThreads minDist
+
+/-- `count <start> <stop> <kib> <threads> <mindist> cores=<n>` -/
+def countLine (op : String) : String :=
+  match (op.splitOn " ").filter (· ≠ "") with
+  | ["count", a, b, _kib, t, md, cores] =>
+    match a.toNat?, b.toNat?, t.toNat?, md.toNat?, kv cores with
+    | some start, some stop, some t, some md, some cores =>
+      let numThreads := inBetween 1 t cores
+      let minDist := if md = 0 then Gen.MIN_THREAD_DISTANCE else md
+      let counts :=
+        if tableOk start stop then countsWithTable (segmentTable start stop) start stop numThreads minDist
+        else parallelCounts isPrimeMR start stop 63 numThreads minDist
+      let ideal := idealNumThreads start stop numThreads minDist
+      let td := if ideal > 1 ∧ start ≤ stop then getThreadDistance start stop ideal minDist else 0
+      let ps := if ideal > 1 ∧ start ≤ stop then pieces start stop td else []
+      let pstr := ";".intercalate (ps.map (fun p => s!"{p.1}-{p.2}"))
+      s!"c={showList counts} ideal={ideal} td={td} pieces={pstr}"
+    | _, _, _, _, _ => "bad-op"
+  | _ => "bad-op"
+
+partial def lineLoop (h : IO.FS.Stream) (f : String → String) : IO Unit := do
+  let line ← h.getLine
+  if line.isEmpty then return ()
+  let line := line.trimAscii.toString
+  let op := (line.splitOn " => ").headD ""
+  IO.println s!"{op} => {f op}"
+  lineLoop h f
+
 def main (args : List String) : IO UInt32 := do
   match args with
   | [stream, file] =>
@@ -150,5 +195,42 @@ def main (args : List String) : IO UInt32 := do
     match stream with
     | "iter" => iterLoop s (Iter.mk' 0 umax); return 0
     | "segment" => segLoop s; return 0
+    | "count" => lineLoop s countLine; return 0
+    | "bench" =>
+      let n := (← IO.FS.readFile file).trimAscii.toString.toNat?.getD 1000
+      let t00 ← IO.monoMsNow
+      let tt := segmentTable 0 n
+      IO.println s!"size {tt.size}"
+      let t01 ← IO.monoMsNow
+      IO.println s!"segmentTable 0 {n}: {t01 - t00} ms"
+      let ss := simpleSieve n
+      IO.println s!"size {ss.size}"
+      let t02 ← IO.monoMsNow
+      IO.println s!"simpleSieve {n}: {t02 - t01} ms"
+      let t0 ← IO.monoMsNow
+      let t := segmentTable 0 100000
+      let t1 ← IO.monoMsNow
+      IO.println s!"table {t1 - t0} ms size {t.size}"
+      let c := primeSieveCounts (tableIsPrime 0 100000 t) 0 100000 63
+      IO.println s!"counts {c}"
+      let t2 ← IO.monoMsNow
+      IO.println s!"primeSieveCounts {t2 - t1} ms"
+      let c := sieveCounts isPrimeMR 0 100000 1
+      IO.println s!"counts MR {c}"
+      let t3 ← IO.monoMsNow
+      IO.println s!"MR {t3 - t2} ms"
+      let c := idealNumThreads 0 100000 1 10000000
+      IO.println s!"ideal {c}"
+      let t4 ← IO.monoMsNow
+      IO.println s!"ideal {t4 - t3} ms"
+      let c := parallelCounts (tableIsPrime 0 100000 t) 0 100000 63 1 10000000
+      IO.println s!"par {c}"
+      let t5 ← IO.monoMsNow
+      IO.println s!"parallelCounts {t5 - t4} ms"
+      let c := countLine "count 0 100000 16 1 0 cores=16"
+      IO.println s!"line {c}"
+      let t6 ← IO.monoMsNow
+      IO.println s!"countLine {t6 - t5} ms"
+      return 0
     | _ => IO.eprintln s!"unknown stream {stream}"; return 2
   | _ => IO.eprintln "usage: psv_model <stream> <tracefile>"; return 2
